@@ -148,7 +148,10 @@ Section Wrap.
     { unfold enc_payload in H63. rewrite blen_app, blen_ld in H63. unfold ld_size in H63. lia. }
     unfold enc_payload at 1. rewrite read_header_payload by assumption.
     cbn [N.eqb Pos.eqb].
-    rewrite <- blen_ld.
+    assert (Hcons : consumed (enc_payload roots bs) (enc_sections bs)
+                    = blen (ld (enc_header (Some roots) 1))).
+    { unfold consumed, enc_payload. rewrite blen_app. lia. }
+    rewrite Hcons.
     rewrite (li_loop_sections o (enc_payload roots bs) Hseek H63 bs (ld (enc_header (Some roots) 1)) []);
       [reflexivity|reflexivity|exact Hok|].
     pose proof (enc_sections_length (fun _ _ => None) hdrdec bs). unfold enc_payload. rewrite app_length. lia.
@@ -232,7 +235,7 @@ Section Wrap.
         destruct (read_v2hdr rest) as [[h rest2]|e]; [|congruence].
         destruct (negb (seek_ok o (h_doff h))); [discriminate|].
         pose proof (read_header_not_fuel hdrdec (x_maxh o) (drop (h_doff h) all)) as Hrh2.
-        destruct (read_header hdrdec (x_maxh o) (drop (h_doff h) all)) as [[[[roots1 v1] rest1] used1]|e]; [|congruence].
+        destruct (read_header hdrdec (x_maxh o) (drop (h_doff h) all)) as [[[[roots1 v1] rest1] used1]|e] eqn:Erh2; [|congruence].
         destruct (negb (v1 =? 1)); [discriminate|].
         apply li_loop_fuel_enough. unfold blen. lia.
     - destruct e; discriminate.
